@@ -535,8 +535,8 @@ func (e *Engine) callByContract(st *State, fn *ssa.Function, ct *Contract, args 
 				env.vars[l.Name] = env.eval(l.Node)
 			}
 			for _, cl := range ct.Ensures {
-				if cl.On != "" {
-					continue
+				if cl.On != "" || usesTrace(cl.Node, ct) {
+					continue // clauses about the callee's own ghost trace say nothing in the caller's trace
 				}
 				t := env.term(cl.Node)
 				if env.err != nil {
@@ -812,4 +812,36 @@ func (e *Engine) havocPath(st *State, fn *ssa.Function, args []Value, n *rNode) 
 		c.set(st, c.options[len(c.options)-1])
 	}
 	return true
+}
+
+// usesTrace reports whether a clause mentions the ghost trace (directly or through a let).
+func usesTrace(n *rNode, ct *Contract) bool {
+	if n == nil {
+		return false
+	}
+	switch n.Op {
+	case "call":
+		switch n.Text {
+		case "count", "iter", "callarg", "callpos", "pushpos", "pushes", "lastpushed", "delivered", "nolocks", "held",
+			"sqlAllInTxn", "writesAllInTxn", "oneTxn", "casDrawnInTxn", "lockedThroughout", "postsAfterCommit", "stmtsScoped",
+			"cursorWhere", "cursorOrderBy", "cursorCount", "cursorRow", "cursorId", "lenlist", "intxn":
+			return true
+		}
+	case "id":
+		switch n.Text {
+		case "posted", "committed", "panicked", "clockdraw", "newCas", "now":
+			return true
+		}
+		for _, l := range ct.Lets {
+			if l.Name == n.Text && usesTrace(l.Node, &Contract{}) {
+				return true
+			}
+		}
+	}
+	for _, a := range n.Args {
+		if usesTrace(a, ct) {
+			return true
+		}
+	}
+	return false
 }
